@@ -81,6 +81,14 @@ func runC10(c *Ctx) error {
 			jobs = append(jobs, newC10Job(name, "no-lexer", g, extra))
 		default:
 			g := hostileGrammar(c.Rng, false)
+			if c.Rng.Intn(2) == 0 {
+				// the pseudo terminal 'error' has a number and a table column too: an error alternative
+				// followed by a nonterminal that is defined before the nonterminal using it
+				item := g.NTs[1]
+				sepLit := item.Alts[0].Body[0]
+				g.NTs[0].Alts = append(g.NTs[0].Alts, gram.SAlt{Err: true, Body: []gram.Sym{{Kind: gram.SNT, Name: "Sep_"}}})
+				g.NTs = []*gram.NTDef{g.NTs[0], {Head: "Sep_", Alts: []gram.SAlt{{Body: []gram.Sym{sepLit}}}}, item}
+			}
 			// extra declared-but-unused tokens are numbered after the used ones
 			for k := 0; k < c.Rng.Intn(3); k++ {
 				g.Lex = append(g.Lex, gram.LexDef{Kind: gram.DTok, Name: fmt.Sprintf("zz_unused%d", k), Pat: gram.StrPattern(fmt.Sprintf("#%d", k))})
@@ -98,6 +106,13 @@ func runC10Jobs(c *Ctx, jobs []*c10Job) error {
 		if len(j.G.NTs) > 0 {
 			gram.AssignActions(c.Rng, j.G, 1)
 			gram.SetHarnessHeader(j.G, "scratch.x/w", j.Name)
+			// the reference models read the actions from the grammar: rebuild them now
+			if cfg, err := model.NewCFG(j.G); err == nil {
+				j.cfg = cfg
+				if lr, err := model.NewLR1(cfg); err == nil {
+					j.lr = lr
+				}
+			}
 		}
 	}
 	c.GenerateAll(gj, true)
@@ -112,6 +127,8 @@ func runC10Jobs(c *Ctx, jobs []*c10Job) error {
 		name string   // terminal for "lexeme"
 		toks []string // for "pair"
 		a, b int      // case indices
+		sj   *SynJob
+		ids  []int
 	}
 	var cases []*DCase
 	var refs []ref
@@ -151,6 +168,15 @@ func runC10Jobs(c *Ctx, jobs []*c10Job) error {
 					refs = append(refs, ref{j: j, kind: "lexeme", name: s.Name, a: len(cases)})
 					cases = append(cases, &DCase{G: j.Name, Op: "lex", Src: []byte(s.Name)})
 				}
+			}
+		}
+		if j.lr != nil && j.Info.HasParser && j.G.HasErrorAlts() {
+			// erroneous inputs by name: the recovery must go through the column TokMap gives to 'error'
+			sj := &SynJob{GenJob: j.GenJob, CFG: j.cfg, LR: j.lr, Earley: model.NewEarley(j.cfg)}
+			sj.Class, sj.Confl = j.lr.Classify()
+			for _, in := range model.InputPool(inRng, j.cfg, 40, 2) {
+				refs = append(refs, ref{j: j, kind: "recover", toks: sj.Names(in), a: len(cases), sj: sj, ids: in})
+				cases = append(cases, &DCase{G: j.Name, Op: "parse", Feed: &DFeed{Toks: sj.Names(in), Fail: -1}})
 			}
 		}
 		if j.mode == "combined" && j.lr != nil && j.lex != nil && j.Info.HasParser {
@@ -215,6 +241,22 @@ func runC10Jobs(c *Ctx, jobs []*c10Job) error {
 			if r.Toks[0].Tn != want {
 				w.Input = src
 				w.Note = fmt.Sprintf("the lexer returns type %d for a lexeme of %q, the token package numbers it %d", r.Toks[0].Tn, rf.name, want)
+				c.Violation(w)
+			}
+		case "recover":
+			p := results[rf.a].P
+			if p == nil {
+				continue
+			}
+			why, nontrivial, exp := judgeC07(c, &parseRef{rf.sj, rf.ids, -1}, p)
+			if nontrivial {
+				c.Nontrivial(j.Name + "/recover/" + strings.Join(rf.toks, " "))
+			}
+			if why != "" {
+				w.Toks = rf.toks
+				w.Expected = exp
+				w.Observed = p
+				w.Note = "error recovery by token name differs from the reference (is the error column the one TokMap assigns?): " + why
 				c.Violation(w)
 			}
 		case "pair":
